@@ -1,0 +1,15 @@
+//go:build verif
+
+package pipeline
+
+import insaneJSON "github.com/ozontech/insane-json"
+
+// VerifIsMatch runs processor.isMatch (the legacy match_fields / do_if selector) for one action
+// described by info on an event whose root is root. Verification-only (build tag `verif`).
+func VerifIsMatch(info *ActionPluginStaticInfo, root *insaneJSON.Root) bool {
+	p := &processor{
+		busyActions: []bool{false},
+		actionInfos: []*ActionPluginStaticInfo{info},
+	}
+	return p.isMatch(0, &Event{Root: root})
+}
